@@ -44,7 +44,7 @@ type runner struct {
 	log      func(string, ...interface{})
 
 	stats struct {
-		Children, Crashes, Confirms, Unconfirmed, TUs, TUFailed, GccRuns int
+		Children, Crashes, Confirms, Unconfirmed, TUs, TUFailed, GccRuns, Skipped int
 	}
 }
 
@@ -90,6 +90,9 @@ func cmdRun(args []string) error {
 
 	// 1. batches in killable children
 	pending := srcs
+	hangChecked := false
+	earlyConfirmed := map[int]bool{}
+	skipped := map[int]bool{}
 	if *individual {
 		pending = nil
 		for _, s := range srcs {
@@ -117,6 +120,44 @@ func cmdRun(args []string) error {
 			r.stats.Crashes++
 			for _, id := range inflight {
 				suspects = append(suspects, id)
+			}
+		}
+		// Circuit breaker: hangs are expensive (a spinning goroutine each, a
+		// child restart every 24 of them).  Once 48 sources are suspected of
+		// hanging, a few are confirmed alone right away; if a hang is real the
+		// remaining sources are not run (they get no trace) - the run has its
+		// finding and would otherwise take hours.
+		if !hangChecked {
+			var hung []int
+			for _, id := range suspects {
+				if res := results[id]; res == nil || (res.Fail != nil && res.Fail.Outcome == "timeout") {
+					hung = append(hung, id)
+				}
+			}
+			if len(hung) >= 48 {
+				hangChecked = true
+				real := 0
+				for _, id := range hung[:4] {
+					res := r.confirm(byID[id])
+					r.stats.Confirms++
+					if res.Fail != nil && res.Fail.Outcome == "timeout" {
+						real++
+					}
+					results[id] = res
+					earlyConfirmed[id] = true
+				}
+				if real > 0 {
+					r.log("%d sources hang (confirmed alone: %d of 4); %d sources are not run", len(hung), real, len(pending)+len(notBegun))
+					r.stats.Skipped = len(pending) + len(notBegun)
+					for _, id := range notBegun {
+						skipped[id] = true
+					}
+					for _, s := range pending {
+						skipped[s.ID] = true
+					}
+					pending = nil
+					break
+				}
 			}
 		}
 		if len(notBegun) > 0 {
@@ -160,8 +201,16 @@ func cmdRun(args []string) error {
 	batchKey := map[int]string{}
 	perKey := map[string]int{}
 	var wave1, rest []int
+	var earlyKeys []string
 	for _, id := range suspects {
 		res := results[id]
+		if earlyConfirmed[id] {
+			if res.Fail != nil && res.Fail.Outcome != "tooling" {
+				perKey[res.Fail.Key]++
+				earlyKeys = append(earlyKeys, res.Fail.Key)
+			}
+			continue
+		}
 		switch {
 		case res == nil || res.Fail == nil:
 			batchKey[id] = "in-flight"
@@ -178,6 +227,9 @@ func cmdRun(args []string) error {
 	}
 	runAlone(wave1)
 	reproduced := map[string]bool{}
+	for _, k := range earlyKeys {
+		reproduced[k] = true
+	}
 	for _, id := range wave1 {
 		if f := results[id].Fail; f != nil && f.Outcome != "tooling" && f.Key == batchKey[id] {
 			reproduced[f.Key] = true
@@ -214,6 +266,9 @@ func cmdRun(args []string) error {
 	var fails []failOut
 	tooling := 0
 	for _, s := range srcs {
+		if skipped[s.ID] {
+			continue
+		}
 		res := results[s.ID]
 		if res == nil {
 			return fmt.Errorf("no result for source %d", s.ID)
